@@ -27,7 +27,21 @@ Ext(ps, variadic, uh, ch, res) == [t |-> "fn", k |-> "ext", ps |-> ps, variadic 
 CallF(al) == NPath(<<NName(kc), NCall(V("f"), [i \in 1..Len(al) |-> ArgNodes[al[i]]])>>, FALSE)
 Doc == Obj(<< <<kc, Str(<<99, 116, 120>>)>> >>)
 
-Init == /\ \/ \E ps \in ParamLists, variadic \in BOOLEAN, al \in ArgLists :
+\* E3: the name carried by an argument error.  First a call that reaches $f under another name (an alias, a lambda
+\* parameter) and succeeds, then a failing call that reaches it directly, through a higher-order built-in, a chain, a
+\* partial application or a block: the error names f.
+NameProgs ==
+    LET f == V("f")   g == V("g")   bad == NNum(IntV(1))   good == NStr(kx)
+        fails == << NCall(V("map"), <<NArray(<<bad>>), f>>), NApply(bad, f), NCall(NPartial(f, <<NPlace>>), <<bad>>), NCall(f, <<bad>>),
+                    NCall(f, <<good, good>>), NCall(V("filter"), <<NArray(<<bad, bad>>), f>>), NCall(NBlock(<<f>>), <<bad>>),
+                    NCall(V("single"), <<NArray(<<bad>>), f>>), NCall(f, <<>>), NApply(NArray(<<bad>>), NCall(V("map"), <<f>>)) >>
+        pres == << <<>>, <<NAssign("g", f), NCall(g, <<good>>)>>, <<NCall(NLambda(<<"h">>, NCall(V("h"), <<good>>)), <<f>>)>>,
+                   <<NAssign("g", f), NCall(V("map"), <<NArray(<<good>>), g>>), NCall(g, <<good>>)>> >>
+    IN  {NBlock(pres[i] \o <<fails[j]>>) : i \in 1..Len(pres), j \in 1..Len(fails)}
+
+Init == /\ \/ \E prog \in NameProgs, ps \in {<<"string">>, <<"bytes">>, <<"string", "OptionalString">>} :
+                 case = MkCaseB(prog, Doc, << <<"f", Ext(ps, FALSE, "none", "none", "echo")>> >>)
+           \/ \E ps \in ParamLists, variadic \in BOOLEAN, al \in ArgLists :
                  ValidParams(ps, variadic) /\ case = MkCaseB(CallF(al), Doc, << <<"f", Ext(ps, variadic, "none", "none", "echo")>> >>)
            \* the handlers and the result shapes, over one- and two-parameter signatures
            \/ \E ps \in {<<"string">>, <<"interface">>, <<"float64", "OptionalString">>, <<"string", "float64">>, <<"value", "interface">>}, variadic \in BOOLEAN,
@@ -39,7 +53,7 @@ Spec == Init /\ [][Next]_mcvars
 
 \* theorem: a call with exactly one well-typed argument per parameter is never an argument error
 WellTypedCallsSucceed ==
-    (out # Pending /\ case.binds[1][2].res = "echo" /\ ~case.binds[1][2].variadic /\ case.binds[1][2].ch = "none" /\ case.binds[1][2].uh = "none"
+    (out # Pending /\ case.ast.k = "Path" /\ case.binds[1][2].res = "echo" /\ ~case.binds[1][2].variadic /\ case.binds[1][2].ch = "none" /\ case.binds[1][2].uh = "none"
      /\ Len(case.ast.steps[2].args) = Len(case.binds[1][2].ps) /\ case.binds[1][2].ps # <<>>
      /\ \A i \in 1..Len(case.binds[1][2].ps) : case.binds[1][2].ps[i] = "interface") => out.o = "val"
 =============================================================================
